@@ -1590,6 +1590,7 @@ def C08(tier, seed, st):
         e = rng.randbytes(rng.choice(ENT_LENS))
         return rng.choice(["E %s %s" % (l, hx(e)), "C %s %s" % (l, hx(gens.encode(l, e)))])
     concurrent_stream(res, rng, _gop, programs=3)
+    tool_reproduces_committed_lists(res)
     return res
 
 
@@ -2020,6 +2021,35 @@ def run_tool(served, workroot, reuse_dir=None):
     return rc, log, out, d
 
 
+def tool_reproduces_committed_lists(res):
+    """Run on the pinned canonical upstream files, the real generator (built from the working tree with -tags verif,
+    in a scratch directory) must write exactly the lists committed under internal/wordlist: the lists of the package
+    and what the tool would regenerate are the same thing (C08 meets C17)."""
+    import os, shutil, tempfile
+    rc, out = common.sh(["go", "build", "-tags", "verif", "-o", os.path.join(common.BUILD, "update-wordlist"), "./update-wordlist"], cwd=common.REPO, env=common.GOENV, timeout=900)
+    if rc != 0:
+        res.corr_break(stream="T", case="-", why="update-wordlist does not build with the verif hook: " + out[-300:])
+        return
+    names = sorted(TOOL_FILES.values())
+    canon = {n: open(os.path.join(common.ROOT, "canon", n + ".txt"), "rb").read() for n in names}
+    workroot = tempfile.mkdtemp(prefix="verif-c08-")
+    try:
+        rc, log, outs, d = run_tool(canon, workroot)
+        if rc != 0:
+            res.violation(stream="T", case="canonical", impl="rc=%s %s" % (rc, log[-600:]), model="", spec="the tool completes", why="the generator failed on the canonical upstream files")
+            return
+        got = common.run_impl(["GP %s" % os.path.join(d, "internal", "wordlist", n + ".go") for n in names])
+        want = common.run_impl(["GP %s" % os.path.join(common.REPO, "internal", "wordlist", n + ".go") for n in names])
+        for n, a, b in zip(names, got, want):
+            res.evaluations += 1
+            res.count("T/canonical-regeneration")
+            if a != b:
+                res.violation(stream="T", case={"round": "canonical", "file": n + ".txt", "served": "canon/%s.txt" % n}, impl=a[:300], model="", spec=b[:300],
+                              why="run on the canonical upstream list the generator does not reproduce the committed list")
+    finally:
+        shutil.rmtree(workroot, ignore_errors=True)
+
+
 def tool_word(rng):
     """a word of letters and combining marks from the scripts of the ten lists"""
     k = rng.random()
@@ -2210,6 +2240,19 @@ def run_concurrent(res, progs):
                           why="a call returned something else than when run alone")
     res.streams["race-processes"] = res.streams.get("race-processes", 0) + len(progs)
     res.streams["alone"] = res.streams.get("alone", 0) + len(uniq)
+    # the same programs with each environment variable the package reads set (fresh processes)
+    for name in [n for n in common.env_reads() if n and not n.startswith("<")]:
+        for val in ("1", "all"):
+            for prog, (rows, race, rc, err) in zip(progs, common.run_race(progs, env={name: val})):
+                res.evaluations += 1
+                res.count("race-env/goroutines=%d" % len([g for g in prog if g[0] != "PRE"]))
+                case = "race " + " || ".join("|".join(g) for g in prog)
+                if race:
+                    res.violation(stream="race", case=case[:6000], env={name: val}, impl=race, model="", spec="no data race",
+                                  why="with %s=%s in the environment the race detector reported a data race" % (name, val))
+                elif rc not in (0, -9):
+                    res.violation(stream="race", case=case[:6000], env={name: val}, impl="rc=%s %s" % (rc, err[-800:]), model="", spec="all goroutines complete",
+                                  why="with %s=%s in the environment the concurrent run did not complete normally" % (name, val))
     # the same programs on the PLAIN build of the package (no verif tag: what users compile) - those that need no
     # scripted source; a data race, crash or result that exists only there is reported with the program as the input
     import os
@@ -2539,30 +2582,51 @@ def plain_build_stream(res, rng, tier):
     M = gens.encode("English", rng.randbytes(16))
     for _ in range(8 if q else 60):
         ops.append("S %s %s" % (hx(rng.choice([M, gens.encode("Japanese", rng.randbytes(16)), rng.choice(pool)])), hx(rng.choice([b"", b"TREZOR", rng.choice(pool)]))))
+    ops.append("S %s %s" % (hx(M), hx("\u00e9\uff21\u3000\u212b".encode())))      # a passphrase that NFKD changes
+    ops.append("S %s %s" % (hx(gens.sentence("Japanese", gens.indices_of_entropy(rng.randbytes(16)), b" ")), hx("\u304c\u30ac".encode())))
     ops += ["E English -", "E English %s" % hx(rng.randbytes(15)), "C English -", "S - -"]
     plain = common.run_impl_plain(ops)
     inst = common.run_impl(ops)
     spec = common.run_model(ops, "spec")
+    def judge(op, a, sp, label):
+        why = None
+        if op[0] in "EL" and sp not in ("unspecified", None) and strip_impl_E(a) != sp and not (op[0] == "E" and not a.startswith("ok ") and not sp.startswith("ok ")):
+            why = label + " differs from the specification"
+        elif op[0] == "C":
+            why = judge_op_validator(op, a, sp)
+            if why:
+                why = label + ": " + why
+        elif op[0] == "S":
+            f = sp.split()
+            if f[5] == "xs=1" and a.replace(" NOT-FRESH", "") != "seed " + pbk(unhx(f[1]), unhx(f[2])):
+                why = label + " derives a seed that differs from the specification"
+        return why
     for op, a, b, sp in zip(ops, plain, inst, spec):
         res.evaluations += 1
         res.count("plain-build/" + op[0])
         if a != b:
             res.corr_break(stream="plain-build", case=op, impl=a[:300], model=b[:300],
                            why="the package built WITHOUT the verif tag (what users build) returns something else than the instrumented build the other streams exercise")
-        why = None
-        if op[0] in "EL" and sp not in ("unspecified", None) and strip_impl_E(a) != sp and not (op[0] == "E" and not a.startswith("ok ") and not sp.startswith("ok ")):
-            why = "the plain build (no verif tag) differs from the specification"
-        elif op[0] == "C":
-            why = judge_op_validator(op, a, sp)
-            if why:
-                why = "plain build (no verif tag): " + why
-        elif op[0] == "S":
-            f = sp.split()
-            if f[5] == "xs=1" and a.replace(" NOT-FRESH", "") != "seed " + pbk(unhx(f[1]), unhx(f[2])):
-                why = "the plain build (no verif tag) derives a seed that differs from the specification"
+        why = judge(op, a, sp, "the plain build (no verif tag)")
         if why:
             res.violation(stream="plain-build", case=op, impl=a[:400], impl_instrumented=b[:400], model="", spec=(sp or "")[:400], build="plain (no verif tag)", why=why)
     res.streams["plain-build"] = len(ops)
+    # the same calls in fresh processes whose ENVIRONMENT sets each variable the package reads (discovered by the
+    # translator: none at the pinned commit) to several values: no result may depend on the environment
+    names = [n for n in common.env_reads() if n and not n.startswith("<")]
+    for name in names:
+        for val in ("1", "0", "", "true", "all"):
+            outs = common.run_impl_env(ops, {name: val})
+            for op, a, sp in zip(ops, outs, spec):
+                res.evaluations += 1
+                res.count("env/" + op[0])
+                why = judge(op, a, sp, "with %s=%r in the environment the implementation" % (name, val))
+                if why:
+                    res.violation(stream="env", case=op, env={name: val}, impl=a[:400], model="", spec=(sp or "")[:400], why=why)
+                    break
+    if names:
+        res.streams["env"] = len(ops) * len(names) * 5
+        res.notes.append("environment variables read by the package (from the translator's inventory): " + ", ".join(names))
 
 
 CHECKS = {"C17": C17, "C12": C12, "C04": C04, "C11": C11, "C07": C07, "C08": C08, "C13": C13, "C14": C14, "C01": C01, "C02": C02, "C03": C03, "C05": C05, "C06": C06, "C09": C09, "C10": C10, "C15": C15, "C16": C16}
